@@ -1,0 +1,115 @@
+// Copyright 2020 TiKV Project Authors. Licensed under Apache-2.0.
+
+//! Instrumentation points for external runtime monitors.
+//!
+//! Only compiled with the `verif` cargo feature, which is off by default. Nothing in here changes
+//! the behaviour of the library: a hook is a callback invoked at the listed points, and the two
+//! helper functions expose a collector cycle and a summary of the collector's retained state.
+
+use std::sync::Arc;
+use std::sync::RwLock;
+use std::sync::atomic::AtomicBool;
+use std::sync::atomic::Ordering;
+
+/// Kind of a collect command, see [`Point::Send`].
+pub const KIND_START: u8 = 0;
+pub const KIND_DROP: u8 = 1;
+pub const KIND_COMMIT: u8 = 2;
+pub const KIND_SUBMIT: u8 = 3;
+
+/// A point in the library at which the hook is invoked. `q` identifies a command queue (the
+/// address of its ring buffer, shared by the sending and the receiving side).
+#[derive(Debug, Clone, Copy, PartialEq, Eq)]
+pub enum Point {
+    /// A thread registers the receiving side of its command queue (before taking the lock).
+    Register { q: usize },
+    /// A command is about to be sent from the current thread (before the thread-local sender is
+    /// touched). For `KIND_SUBMIT`, `collect_id` is the first item of the token, `items` the
+    /// number of token items, `span_id` the id of the first raw span in the set and `spans` the
+    /// number of raw spans in it.
+    Send {
+        force: bool,
+        kind: u8,
+        collect_id: usize,
+        items: usize,
+        span_id: u64,
+        spans: usize,
+    },
+    /// A value is about to be pushed into the ring. `full` was read just before: in a
+    /// single-producer ring `!full` implies that the push succeeds. `replay` is set for a value
+    /// taken from the overflow list, `pending` is the length of that list (after the take).
+    Push {
+        q: usize,
+        full: bool,
+        force: bool,
+        replay: bool,
+        pending: usize,
+    },
+    /// A forced command was parked in the overflow list without trying the ring.
+    Park { q: usize, pending: usize },
+    /// The sending side is being dropped (thread exit) with `pending` parked commands.
+    SenderDrop { q: usize, pending: usize },
+    /// `handle_commands` begins.
+    CycleBegin,
+    /// Receivers are about to be drained (`pass` is 1 or 2).
+    PassBegin { pass: u8 },
+    /// The receiver `q` is about to be drained.
+    DrainBegin { q: usize },
+    /// `pop()` on `q` found nothing; `is_abandoned()` has not been evaluated yet.
+    RecvEmpty { q: usize },
+    /// All receivers have been drained for this cycle.
+    DrainEnd,
+    /// The reporter is about to be called with `n` records.
+    BeforeReport { n: usize },
+    /// `handle_commands` returns.
+    CycleEnd,
+}
+
+type Hook = Arc<dyn Fn(&Point) + Send + Sync>;
+
+static ENABLED: AtomicBool = AtomicBool::new(false);
+static HOOK: RwLock<Option<Hook>> = RwLock::new(None);
+
+/// Installs (or removes) the process-wide hook.
+pub fn set_hook(hook: Option<Hook>) {
+    let mut slot = HOOK.write().unwrap_or_else(|e| e.into_inner());
+    ENABLED.store(hook.is_some(), Ordering::SeqCst);
+    *slot = hook;
+}
+
+#[inline]
+pub(crate) fn hit(point: Point) {
+    if ENABLED.load(Ordering::Relaxed) {
+        let hook = HOOK.read().unwrap_or_else(|e| e.into_inner()).clone();
+        if let Some(hook) = hook {
+            hook(&point);
+        }
+    }
+}
+
+/// A summary of the state retained by the global collector.
+#[derive(Debug, Clone, Default, PartialEq, Eq)]
+pub struct Stats {
+    /// Whether a reporter has been installed.
+    pub installed: bool,
+    /// Collect ids of the traces the collector holds an entry for, sorted.
+    pub active_collect_ids: Vec<usize>,
+    /// Number of span sets buffered in those entries.
+    pub buffered_span_sets: usize,
+    /// Number of events / property sets parked in those entries.
+    pub danglings: usize,
+    /// Number of registered command queues.
+    pub receivers: usize,
+    /// Commands held in the collector's scratch vectors between cycles.
+    pub scratch_len: usize,
+}
+
+/// Runs one collector cycle on the calling thread (what `flush()` does on a helper thread).
+pub fn run_collector_cycle() {
+    crate::collector::global_collector::verif_run_collector_cycle();
+}
+
+/// Reads a summary of the collector's retained state under the collector's own locks.
+pub fn collector_stats() -> Stats {
+    crate::collector::global_collector::verif_collector_stats()
+}
